@@ -450,10 +450,6 @@ var msLibCalls = map[string]bool{
 	"(*html/template.Template).Execute": true, "(*html/template.Template).ExecuteTemplate": true,
 }
 
-func coqString(s string) string {
-	return "\"" + strings.ReplaceAll(s, "\"", "\"\"") + "\""
-}
-
 func collectMapSites(repo string) ([]mapSite, []string, error) {
 	for _, kv := range [][2]string{{"GOFLAGS", "-mod=mod"}, {"GOPROXY", "off"}, {"GOSUMDB", "off"}, {"GOTOOLCHAIN", "local"}} {
 		if os.Getenv(kv[0]) == "" {
